@@ -140,6 +140,8 @@ class choice_point:
         else:
             self.matches_cur = self.matches = None
             return False
+        # the dependencies to work through are the new candidate's own
+        self._reset_iters()
         return self.reduce_atoms([])
 
     @property
